@@ -162,6 +162,16 @@ pub trait ToPrimitive {
     fn to_u128(&self) -> (ret: Option<u128>) requires self.tp_req() ensures ret == (if self.tp_unsigned_ok() && fits_u128(self.tp_val()) { Some(self.tp_val() as u128) } else { None });
 }
 
+/// num_traits::FromPrimitive: the six methods the crate implements (the provided narrower ones are not modelled)
+pub trait FromPrimitive: Sized {
+    fn from_i64(n: i64) -> Option<Self>;
+    fn from_u64(n: u64) -> Option<Self>;
+    fn from_i128(n: i128) -> Option<Self>;
+    fn from_u128(n: u128) -> Option<Self>;
+    fn from_f32(n: f32) -> Option<Self>;
+    fn from_f64(n: f64) -> Option<Self>;
+}
+
 /// num_bigint::ToBigInt
 pub trait ToBigInt {
     spec fn to_bigint_req(&self) -> bool;
@@ -569,6 +579,45 @@ pub fn copy_prefix_within(v: &mut Vec<u8>, a: usize, idx: usize)
             forall|i: int| 0 <= i < old(v)@.len() && !(idx <= i < idx + a) ==> final(v)@[i] == old(v)@[i]
 { unimplemented!() }
 
+#[verifier::external_type_specification]
+#[verifier::external_body]
+pub struct ExParseFloatError(core::num::ParseFloatError);
+#[verifier::external_type_specification]
+#[verifier::external_body]
+pub struct ExParseIntError(core::num::ParseIntError);
+
+// ------------------------------------------------------------------ IEEE-754 (axiom A3: to_bits / classify layout)
+#[verifier::external_type_specification]
+pub struct ExFpCategory(core::num::FpCategory);
+pub uninterp spec fn f32_bits(f: f32) -> u32;
+pub uninterp spec fn f64_bits(f: f64) -> u64;
+pub open spec fn f32_category(bits: u32) -> core::num::FpCategory {
+    let e = (bits >> 23) & 0xff; let m = bits & 0x7f_ffff;
+    if e == 0xff { if m == 0 { core::num::FpCategory::Infinite } else { core::num::FpCategory::Nan } }
+    else if e == 0 { if m == 0 { core::num::FpCategory::Zero } else { core::num::FpCategory::Subnormal } }
+    else { core::num::FpCategory::Normal }
+}
+pub open spec fn f64_category(bits: u64) -> core::num::FpCategory {
+    let e = (bits >> 52) & 0x7ff; let m = bits & 0xf_ffff_ffff_ffff;
+    if e == 0x7ff { if m == 0 { core::num::FpCategory::Infinite } else { core::num::FpCategory::Nan } }
+    else if e == 0 { if m == 0 { core::num::FpCategory::Zero } else { core::num::FpCategory::Subnormal } }
+    else { core::num::FpCategory::Normal }
+}
+pub assume_specification [f32::to_bits] (f: f32) -> (ret: u32) ensures ret == f32_bits(f);
+pub assume_specification [f64::to_bits] (f: f64) -> (ret: u64) ensures ret == f64_bits(f);
+pub assume_specification [f32::classify] (f: f32) -> (ret: core::num::FpCategory) ensures ret == f32_category(f32_bits(f));
+pub assume_specification [f64::classify] (f: f64) -> (ret: core::num::FpCategory) ensures ret == f64_category(f64_bits(f));
+pub assume_specification [<core::num::FpCategory as PartialEq>::eq] (a: &core::num::FpCategory, b: &core::num::FpCategory) -> (ret: bool)
+    ensures ret == (*a == *b);
+pub assume_specification<T: Ord> [core::cmp::min] (a: T, b: T) -> (ret: T)
+    ensures T::obeys_cmp_spec() ==> ret == (if b.cmp_spec(&a) == Ordering::Less { b } else { a });
+
+impl BigUint {
+    /// base-2^32 words, least significant first
+    #[verifier::external_body]
+    pub fn from_slice(words: &[u32]) -> (ret: BigUint) ensures ret@ == wle(words@) { unimplemented!() }
+}
+
 // ------------------------------------------------------------------ std
 pub assume_specification<T> [<[T]>::split_last] (s: &[T]) -> (ret: Option<(&T, &[T])>)
     ensures match ret { None => s@.len() == 0, Some((l, rest)) => s@.len() > 0 && *l == s@.last() && rest@ == s@.drop_last() };
@@ -589,6 +638,11 @@ pub assume_specification<T, F: FnOnce(T) -> bool> [Option::<T>::is_some_and] (o:
 
 pub assume_specification [<Ordering as PartialEq>::eq] (a: &Ordering, b: &Ordering) -> (ret: bool)
     ensures ret == (*a == *b);
+
+/// overflow at i64::MIN is excluded by the precondition (an obligation at every call)
+pub assume_specification [i64::abs] (v: i64) -> (ret: i64)
+    requires v != i64::MIN
+    ensures ret == iabs(v as int);
 
 pub assume_specification [core::cmp::Ordering::reverse] (o: Ordering) -> (ret: Ordering)
     ensures ret == (match o { Ordering::Less => Ordering::Greater, Ordering::Equal => Ordering::Equal, Ordering::Greater => Ordering::Less });
